@@ -224,8 +224,8 @@ impl Prop for C01 {
     }
     fn budget(&self, tier: Tier) -> Budget {
         match tier {
-            Tier::Quick => Budget { cases: 160_000, max_tape: 384 },
-            Tier::Thorough => Budget { cases: 4_000_000, max_tape: 768 },
+            Tier::Quick => Budget { cases: 480_000, max_tape: 384 },
+            Tier::Thorough => Budget { cases: 8_000_000, max_tape: 768 },
         }
     }
     fn run_tape(&self, tape: &[u8], tier: Tier, rec: &mut Recorder) -> Result<(), Failure> {
